@@ -30,6 +30,7 @@ def run(ctx):
     from . import scopes
     if scopes.table(ctx, fb, "C03-set-in-place", "set") < 8:
         ctx.undecided("C03-set-in-place", "floor", "the scope-chain table of set was not evaluated")
+    scopes.table(ctx, fb, "C03-set-in-place", "set", n=4 if ctx.tier != "thorough" else 5)
     # a definition of a name the frame already binds is an assignment to that binding (R7RS 5.3.1): every closure sharing the
     # variable sees the new value — the scope-chain table of define: the value ends up in the own frame's binding, always
     ctx.rule("C03-redefinition", "defining a name again in the same frame overwrites the binding every closure of that frame shares")
